@@ -549,6 +549,7 @@ def run(ctx, rep):
     rep.floor("C10.Ident constructions derived from another Ident", n_derived, 2)
     scope_discipline(F, rep)
     scope_record(F, rep)
+    const_declaration_over_existing_name(F, rep)
     scope_walk(F, rep)
     const_flag(F, rep)
     member_names_are_not_variables(F, rep)
@@ -920,3 +921,61 @@ def member_names_are_not_variables(F, rep):
                ("; a class member answers for a bare name inside a method: the const check looks at the member while the program writes the module variable" if (st_ == "violated" and "Class" in ans) else ""),
                lk.span, fn=lk.path, key="C10.scope|member-names|%s" % label.replace(" ", "-"))
     rep.floor("C10.scope member-name lookups evaluated", n, 4)
+
+
+
+def const_declaration_over_existing_name(F, rep, rule="C10.guard"):
+    """`const x = 10` where the function already has a (mutable) `x` would freeze the existing variable in place: functions created earlier
+    that captured it (`modify x = ..`) keep writing it, so the constant does not keep showing its initializer.  Parser::assignment therefore
+    tests the constness of the declaration it has just built against the existing name: (1) a call on the new Assignment that reads
+    Ident::is_const is reached when the statement is NOT a `modify` (the name-existed case of plain declarations), (2) from its failing edge
+    no successful return is reachable."""
+    pa = F.fn("compiler::ast::assignment::<impl compiler::parser::Parser>::assignment") or need(F, "compiler::parser::Parser::assignment")
+    mod = set()
+    for c in pa.calls():
+        if not c.matches("core::option::Option::unwrap_or") or pa.locals[c.dst["l"]].strip() != "bool":
+            continue
+        l = op_local(c.args[0])
+        for m in (rules.origin_calls(pa, l, transparent=set()) if l is not None else []):
+            if m.matches("core::option::Option::map") and len(m.args) > 1:
+                cd = rules.closure_def_of_arg(pa, m.args[1])
+                g = F.fn(cd) if cd else None
+                if g is not None and g.calls_to("compiler::ast::assignment::AssignmentFlag::modify"):
+                    mod.add(c.dst["l"])
+    if not mod:
+        raise AnchorMissing("the `modify` flag of Parser::assignment")
+
+    def reads_constness(g, depth=2):
+        if g is None:
+            return False
+        if g.calls_to(IS_CONST):
+            return True
+        if depth == 0:
+            return False
+        for cl in F.closures_of(g):
+            if cl.calls_to(IS_CONST):
+                return True
+        return any(reads_constness(F.fn(c.callee()), depth - 1) for c in g.calls() if c.callee().startswith("compiler::"))
+    pcalls = [c for c in pa.calls() if c.callee().startswith("compiler::ast::assignment::Assignment::") and reads_constness(F.fn(c.callee()))]
+    removed = set()
+    for bb, t_t, f_t, pol in rules.bool_switches(pa, pa.derived(mod)):
+        if pol is not None:
+            removed.add((bb, t_t if pol else f_t))
+    plain = pa.reachable(0, removed_edges=removed)
+    live = [c for c in pcalls if c.bb in plain]
+    rep.ob(rule, "a plain (non-`modify`) declaration tests its own constness against a name the function already has", "ok" if live else "violated",
+           "" if live else ("%d constness-reading call(s) on the new Assignment, none reachable unless the statement is a `modify`: `x = 1` / `const x = 10` freezes the "
+                            "existing variable in place and earlier closures keep writing it" % len(pcalls)), pa.span, fn=pa.path, key=rule + "|const-over-existing")
+    oks = set(rules.ok_return_blocks(pa))
+    passes = lambda call, idx: call.matches((rules.TRY_BRANCH, "compiler::ast::map_err", "compiler::VecErr::to_err_vec", "core::result::Result::map_err"))
+    for i, c in enumerate(live):
+        der = pa.derived([c.dst["l"]], through_call=passes)
+        sws = [x for x in rules.bool_switches(pa, der) if x[3] is not None]
+        bad = []
+        for bb, t_t, f_t, pol in sws:
+            failing = f_t if pol else t_t
+            if oks & pa.reachable(failing):
+                bad.append(bb)
+        rep.ob(rule, "the declaration is refused when that test fails", "violated" if (bad or not sws) else "ok",
+               ("no branch on the result" if not sws else ("a successful return is reachable from the failing edge of bb%s" % bad if bad else "")), c.span, fn=pa.path,
+               key="%s|const-over-existing|refused#%d" % (rule, i))
